@@ -5,6 +5,8 @@ def openMachine (args : List String) (hin hout : IO.FS.Stream) : Option (IO Bool
   match args with
   | ["afifo", k] => k.toNat?.map fun k => serve (numAFifo k false) hin hout
   | ["afifo_buffered", k] => k.toNat?.map fun k => serve (numAFifo k true) hin hout
+  | ["afifo_rst", k] => k.toNat?.map fun k => serve (numAFifoR k false) hin hout
+  | ["afifo_rst_buffered", k] => k.toNat?.map fun k => serve (numAFifoR k true) hin hout
   | ["bussync", w, t] => match w.toNat?, t.toNat? with
     | some w, some t => some (serve (numBusSync w t) hin hout)
     | _, _ => none
